@@ -34,7 +34,7 @@ type caseT struct {
 
 var nets = []string{"tcp", "unix"}
 var modes = []string{"LT", "ET", "ONESHOT"}
-var origins = []string{"onopen", "regap", "ondata", "foreign", "timer", "onclose-other"}
+var origins = []string{"onopen", "regap", "ondata", "foreign", "timer", "onclose-other", "dialcb"}
 
 func genCase(r *h.Run, phase string, idx int) caseT {
 	rng := r.Rand("c04-"+phase, idx)
@@ -91,6 +91,12 @@ func genCase(r *h.Run, phase string, idx int) caseT {
 		// unless the shape asks for files explicitly
 	}
 	c.Delay = []int{0, 5, 50}[rng.Intn(3)]
+	if rng.Intn(4) == 0 {
+		// a file with nothing left to send queued in the middle of (or behind) the backlog
+		e := outb.Op{Kind: "sendfile-empty", Off: rng.Intn(2) * rng.Intn(3000)}
+		at := 1 + rng.Intn(len(c.Ops))
+		c.Ops = append(c.Ops[:at], append([]outb.Op{e}, c.Ops[at:]...)...)
+	}
 	if phase == "shim" {
 		c.Shim = []string{"random", "tiny", "pass", "eintr-first"}[rng.Intn(4)]
 		if rng.Intn(2) == 0 {
@@ -156,7 +162,7 @@ func runCase(r *h.Run, c caseT) {
 	var nOpen int32
 	env.OnOpen = func(cn *nbio.Conn) {
 		k := atomic.AddInt32(&nOpen, 1)
-		if k == 1 {
+		if k == 1 && c.Origin != "dialcb" {
 			subject = cn
 			prep(cn)
 			if c.Origin == "onopen" {
@@ -188,19 +194,35 @@ func runCase(r *h.Run, c caseT) {
 		}
 	}
 
-	peer, err := env.Dial()
-	if err != nil {
-		r.Inconclusive(fmt.Sprintf("case %d: dial: %v", c.Index, err))
-		return
+	var peer net.Conn
+	var cn *nbio.Conn
+	if c.Origin == "dialcb" {
+		// the subject is a connection the engine dials; the backlog is created
+		// inside the dial callback, the peer is what a plain listener accepts
+		peer, cn, err = dialSubject(env, c, func(x *nbio.Conn) {
+			subject = x
+			prep(x)
+			doOps(x)
+		})
+		if err != nil {
+			r.Inconclusive(fmt.Sprintf("case %d: %v", c.Index, err))
+			return
+		}
+	} else {
+		peer, err = env.Dial()
+		if err != nil {
+			r.Inconclusive(fmt.Sprintf("case %d: dial: %v", c.Index, err))
+			return
+		}
+		select {
+		case cn = <-srv:
+		case <-time.After(10 * time.Second):
+			peer.Close()
+			r.Inconclusive(fmt.Sprintf("case %d: accept not observed", c.Index))
+			return
+		}
 	}
 	defer peer.Close()
-	var cn *nbio.Conn
-	select {
-	case cn = <-srv:
-	case <-time.After(10 * time.Second):
-		r.Inconclusive(fmt.Sprintf("case %d: accept not observed", c.Index))
-		return
-	}
 	fd := cn.Hash()
 	defer outb.DropPolicy(fd, cn)
 
@@ -427,7 +449,81 @@ func guarded(r *h.Run, c caseT) {
 }
 
 var _ = rand.Int
-var _ net.Conn
+
+// dialSubject lets the engine dial a plain listener and runs inCallback inside
+// the dial callback. It returns the accepted peer and the dialed connection.
+func dialSubject(env *outb.Env, c caseT, inCallback func(*nbio.Conn)) (net.Conn, *nbio.Conn, error) {
+	addr := "127.0.0.1:0"
+	dir := ""
+	if c.Cfg.Net == "unix" {
+		d, err := os.MkdirTemp("", "vdial")
+		if err != nil {
+			return nil, nil, err
+		}
+		dir = d
+		addr = d + "/l.sock"
+	}
+	ln, err := net.Listen(c.Cfg.Net, addr)
+	if err != nil {
+		return nil, nil, fmt.Errorf("listen: %v", err)
+	}
+	defer func() {
+		ln.Close()
+		if dir != "" {
+			os.RemoveAll(dir)
+		}
+	}()
+	type res struct {
+		cn  *nbio.Conn
+		err error
+	}
+	dialed := make(chan res, 1)
+	accepted := make(chan net.Conn, 1)
+	go func() {
+		p, err := ln.Accept()
+		if err != nil {
+			accepted <- nil
+			return
+		}
+		if c.Cfg.RcvBuf > 0 {
+			switch v := p.(type) {
+			case *net.TCPConn:
+				_ = v.SetReadBuffer(c.Cfg.RcvBuf)
+			case *net.UnixConn:
+				_ = v.SetReadBuffer(c.Cfg.RcvBuf)
+			}
+		}
+		accepted <- p
+	}()
+	err = env.G.DialAsync(c.Cfg.Net, ln.Addr().String(), func(x *nbio.Conn, err error) {
+		if err == nil {
+			inCallback(x)
+		}
+		dialed <- res{x, err}
+	})
+	if err != nil {
+		return nil, nil, fmt.Errorf("DialAsync: %v", err)
+	}
+	var peer net.Conn
+	select {
+	case peer = <-accepted:
+	case <-time.After(10 * time.Second):
+	}
+	if peer == nil {
+		return nil, nil, fmt.Errorf("the listener accepted nothing")
+	}
+	select {
+	case d := <-dialed:
+		if d.err != nil {
+			peer.Close()
+			return nil, nil, fmt.Errorf("dial callback: %v", d.err)
+		}
+		return peer, d.cn, nil
+	case <-time.After(60 * time.Second):
+		peer.Close()
+		return nil, nil, fmt.Errorf("dial callback did not return")
+	}
+}
 
 func main() {
 	r := h.Start("C04")
@@ -445,9 +541,9 @@ func main() {
 		guarded(r, c)
 		return
 	}
-	n := r.N(72, 720)
+	n := r.N(84, 840)
 	if r.Phase == "shim" {
-		n = r.N(72, 1440)
+		n = r.N(84, 1680)
 	}
 	for i := 0; i < n; i++ {
 		if !r.Mine(i) {
